@@ -406,6 +406,58 @@ def correspond(model_ok, res):
         dist["explicit_ops_per_tree"][b] = dist["explicit_ops_per_tree"].get(b, 0) + 1
         dist["max_operands"][min(maxw, 6)] = dist["max_operands"].get(min(maxw, 6), 0) + 1
 
+    # histories: ONE resolver instance reused on a sequence of 2-6 trees; the oracle requires every result to
+    # be, by full structural comparison, what a FRESH resolver returns for that tree (calls are independent:
+    # no memory may survive a call).  The k-th result of the reused instance is also given to the model
+    # comparison, so the call-sequence correspondence ties C10_calls_independent to the code.
+    hist_queries = ["a OR b", "c d (e f)", "a AND b", "x:(a OR b) c d", "(a b) OR c", "e f", "(g OR h) i j",
+                    "NOT a b", "a b OR c d"]
+    fixed_histories = [["a OR b", "c d (e f)"], ["a OR b", "c d"], ["(a OR b)", "(c d)", "e f"],
+                       ["a AND b", "a OR b", "c d", "c d"], ["x:(a OR b)", "x:(c d)"]]
+    n_hist = 25 if quick else 250
+    histories = [[(parser.parse(q), q) for q in h] for h in fixed_histories]
+    for _ in range(n_hist):
+        h = []
+        for _ in range(r.randrange(2, 7)):
+            x = r.random()
+            if x < 0.4:
+                q = r.choice(hist_queries)
+                h.append((parser.parse(q), q))
+            elif x < 0.8:
+                t = rg.ltree(r.randrange(1, 4))
+                h.append((t, gentree.describe(t)[:400]))
+            else:
+                t = rg.tree(r.randrange(2, 8), r.randrange(1, 4), opsonly)
+                h.append((t, gentree.describe(t)[:400]))
+        histories.append(h)
+    dist["histories"] = {"count": 0, "calls": 0, "length": {}}
+    for hi, h in enumerate(histories):
+        for tgname, tgcls in (targets(T) if hi % 3 == 0 else targets(T)[:1]):
+            ah = ADD_HEADS[hi % 3] if tgcls is None and hi >= len(fixed_histories) else " "
+            reused = UnknownOperationResolver(resolve_to=tgcls, add_head=ah)
+            descs = [d for _, d in h]
+            dist["histories"]["count"] += 1
+            dist["histories"]["length"][len(h)] = dist["histories"]["length"].get(len(h), 0) + 1
+            for k, (tree, d) in enumerate(h):
+                before = lib.g_item(tree)
+                payload = {"history": descs, "index": k, "resolve_to": tgname, "add_head": ah}
+                try:
+                    got = reused(tree)
+                    fresh = UnknownOperationResolver(resolve_to=tgcls, add_head=ah)(tree)
+                except Exception as e:
+                    res.failures.append((dict(payload, why="exception %r" % e), None))
+                    continue
+                dist["histories"]["calls"] += 1
+                if lib.g_item(tree) != before:
+                    res.failures.append((dict(payload, why="the input tree was modified"), None))
+                if lib.g_item(got) != lib.g_item(fresh):
+                    res.failures.append((dict(
+                        payload, why="call %d on a reused resolver differs from a fresh resolver on the same tree"
+                        % k, reused_result=gentree.describe(got)[:800], fresh_result=gentree.describe(fresh)[:800]),
+                        None))
+                cases.append("(%s, %s, %s, Some %s)" % (tgname, lib.g_str(ah), before, lib.g_item(got)))
+                payloads.append(dict(payload, what="k-th result of a reused resolver vs model"))
+
     # the invalid target: the constructor raises ValueError, the model answers None
     try:
         UnknownOperationResolver(resolve_to=T.UnknownOperation)
@@ -458,7 +510,7 @@ SPEC = {
     "theorems": ["C10_total", "C10_invalid_target", "C10_no_unknown_left", "C10_structure",
                  "C10_copy_keeps", "C10_explicit_target", "C10_lucene_and_or", "C10_lucene_default_and",
                  "C10_same_meaning", "C10_same_meaning_explicit", "C10_meaning_needs_std_attrs",
-                 "C10_idempotent"],
+                 "C10_idempotent", "C10_calls_independent"],
     "correspond": correspond,
     "statement": "resolve never fails on a valid target; no UnknownOperation left; every node of the result is "
                  "the default copy of the node at the same path (Unknown -> target / And|Or), heads prefixed "
@@ -475,6 +527,10 @@ SPEC = {
         "'input not modified' and 'no node shared with the input' are checked by snapshots only",
     ],
     "assumptions": ["trees contain only luqum.tree classes; no node object occurs at two positions",
+                    "C10_calls_independent is immediate in a pure model (a call has no access to a previous one); "
+                    "what ties it to the code is the call-sequence correspondence of harness/c10.py: one resolver "
+                    "instance reused on histories of 2-6 trees, every result compared with a fresh resolver "
+                    "(oracle) and with the model",
                     "same-meaning / idempotence theorems: attribute values as the constructors produce them "
                     "(implicit degree/force hold their default, boost force normalised)"],
 }
